@@ -1,26 +1,12 @@
 (* C08 - saving and loading a database is lossless; the text export writes one bit string per row.
-   Statements only; proofs are in Proofs/DbIO.v, Proofs/DbIOText.v, Proofs/DbIOFacts.v.  Model: Model/DbIO.v (M3, I/O part).
+   Statements only; proofs are in Proofs/DbIO.v, Proofs/DbIOText.v (source-derived constants: C08Src.v).  Model: Model/DbIO.v (M3, I/O part).
 
    Trusted, not modelled: the NumPy archive and pickle.  They appear as the universally quantified functions
    npz_write/npz_read and pkl_dumps/pkl_loads together with the hypothesis that reading returns what was written
    (key -> array map with dtype, 0-d flag and values; keys are distinct because they are members of a zip file). *)
 From Coq Require Import Ascii.
-From E3FP Require Import Base.Prelude Base.ZSet Model.DbIO Gen.DbIOFacts Proofs.DbIO Proofs.DbIOText Proofs.DbIOFacts.
+From E3FP Require Import Base.Prelude Base.ZSet Model.DbIO Proofs.DbIO Proofs.DbIOText.
 Open Scope Z_scope.
-
-(* the constants of the model are the ones in db.py on this run (regenerated facts) *)
-Theorem source_constants :
-  src_extraction_ok = true /\
-  src_savez_keys = fixed_keys /\
-  (forall k, (src_savez_prefix ++ k)%string = prefix_key k) /\
-  src_load_prefix = src_savez_prefix /\ src_load_strip = 1 /\
-  subset src_load_keys_read fixed_keys = true /\ subset fixed_keys src_load_keys_read = true /\
-  src_savez_ext = src_load_ext /\
-  src_txt_one = "1"%string /\ src_txt_zero = "0"%string /\ src_txt_sentinel = -1 /\ src_txt_minus = 1 /\
-  src_txt_formats = ["{0:s}"; " {1:s}"]%string /\ src_txt_terminator_is_newline = true /\
-  src_dtypes = map (fun k => dtype_code (kind_dtype k)) [KBit; KCount; KFloat].
-Proof. exact source_constants_lemma. Qed.
-Print Assumptions source_constants.
 
 (* For ANY property name k (also "_x", "data", "shape", ...): "_" + k is none of the eight fixed keys, one character
    stripped gives k back, the prefix is injective, no fixed key starts with "_"; and for ANY database the archive
